@@ -323,10 +323,11 @@ func (e *engine) contractFor(f *ssa.Function) *funcContract {
 	if pc == nil {
 		// a function of a package without a contract file (standard library): an assumed
 		// contract `func pkg.Name(...)` may be given in any contract file
-		key := f.Pkg.Pkg.Name() + "." + funcKey(f)
-		for _, pc := range e.contracts {
-			if fc := pc.funcs[key]; fc != nil {
-				return fc
+		for _, key := range externKeys(f) {
+			for _, pc := range e.contracts {
+				if fc := pc.funcs[key]; fc != nil {
+					return fc
+				}
 			}
 		}
 		return nil
@@ -336,13 +337,28 @@ func (e *engine) contractFor(f *ssa.Function) *funcContract {
 	}
 	// no contract in its own package's file: a (trusted) view of the function stated in
 	// another package's file as `func pkg.Name(...)`
-	key := f.Pkg.Pkg.Name() + "." + funcKey(f)
-	for _, opc := range e.contracts {
-		if fc := opc.funcs[key]; fc != nil {
-			return fc
+	for _, key := range externKeys(f) {
+		for _, opc := range e.contracts {
+			if fc := opc.funcs[key]; fc != nil {
+				return fc
+			}
 		}
 	}
 	return nil
+}
+
+// externKeys: how a function of another package is named in a contract header:
+// pkg.Func, (*pkg.T).Method, pkg.T.Method
+func externKeys(f *ssa.Function) []string {
+	p := f.Pkg.Pkg.Name()
+	k := funcKey(f)
+	keys := []string{p + "." + k}
+	if strings.HasPrefix(k, "(*") {
+		keys = append(keys, "(*"+p+"."+k[2:])
+	} else if strings.Contains(k, ".") {
+		keys = append(keys, p+"."+k)
+	}
+	return keys
 }
 
 // ifaceContract: contract for an interface method, declared as
